@@ -2,7 +2,7 @@
     models compute on the inputs the checks use (nesting bombs, length bombs, boundary announcements). *)
 From RB Require Import Base.Prelude Sig.Types Sig.Parser Sig.ParserProofs Sig.Validator Sig.ValidatorProofs
   Wire.Bytes Wire.Align Wire.Text Wire.Value Wire.SpecEnc Wire.Marshal Wire.Decode Wire.Unmarshal Wire.HasSig Wire.Body
-  Wire.Limits Wire.LimitsProofs Wire.ParserTotal.
+  Wire.Limits Wire.LimitsProofs Wire.LimitsBounds Wire.ParserTotal.
 From RB Require Conn.Recv Wire.LimitsRecv.
 
 (* n variants in each other around a variant holding the byte 7: n+1 containers *)
@@ -95,3 +95,11 @@ Example get_param_garbage :
   get_param (new_parser {| bbe := true; bsig := [97; 123; 115; 118; 125]; bbuf := [255; 255; 255; 255; 0]; bfds := 0 |})
   = Ok (new_parser {| bbe := true; bsig := [97; 123; 115; 118; 125]; bbuf := [255; 255; 255; 255; 0]; bfds := 0 |}, GErr).
 Proof. vm_compute. reflexivity. Qed.
+
+(* nodes against bytes: an array of three bytes (7 bytes on the wire) has 4 nodes *)
+Example count_array :
+  match unmarshal_p 66 false (TArray (TBase BByte)) {| ubuf := [3; 0; 0; 0; 1; 2; 3]; uoff := 0; unfds := 0; udepth := 0 |} with
+  | Ok (v, c) => vcount v = 4 /\ uoff c = 7
+  | _ => False
+  end.
+Proof. vm_compute. auto. Qed.
